@@ -432,6 +432,49 @@ def main(ctx):
                 for cs in (None, ("scalar", "x"), ("list", ("a",))) if not (rs is not None and rs[0] == "slice" and style == "sfile.read")]
     ctx.lattice("large-table-reads", bigunits, one_big, bounds=dict(rows=NB, row_bytes=16, selections=len(bsel)))
 
+    # offsets beyond 2^31 and 2^32 bytes: a SPARSE header-less binary file of 1 MiB rows (only a handful of rows is
+    # ever written, the file occupies a few pages), read by row lists / scalars / column subsets whose first row or
+    # whose gaps are more than 2 GiB / 4 GiB into the file - byte distances kept in a 32-bit int wrap here
+    def one_huge(case, rec):
+        from esutil import recfile
+        style, rows, col = case
+        dt = np.dtype([("a", "<i8"), ("pad", "S1048560"), ("b", "<i8")])      # 1 MiB per row
+        NR = 4200
+        key = ("huge", rec.tmp)
+        marked = (0, 1, 2047, 2048, 2049, 4095, 4096, 4199)
+        if key not in files:
+            fnh = os.path.join(rec.tmp, "c02_huge.bin")
+            with open(fnh, "wb") as f:
+                f.truncate(NR * dt.itemsize)
+                for r in marked:
+                    f.seek(r * dt.itemsize)
+                    f.write(np.int64(1000 + r).tobytes())
+                    f.seek(r * dt.itemsize + dt.itemsize - 8)
+                    f.write(np.int64(-(1000 + r)).tobytes())
+            files[key] = fnh
+        fnh = files[key]
+        want = [1000 + r for r in sorted(set(rows))]
+        try:
+            with recfile.Recfile(fnh, mode="r", dtype=dt, nrows=NR) as R:
+                if style == "read":
+                    got = R.read(rows=list(rows), columns=col)
+                elif style == "bracket":
+                    got = R[col][list(rows)]
+                else:
+                    got = np.array([R.read(rows=r, columns=col)[0] if np.ndim(R.read(rows=r, columns=col)) else R.read(rows=r, columns=col)
+                                    for r in sorted(set(rows))])
+        except Exception as e:
+            return rec.fail(case, "raised %s: %s" % (type(e).__name__, str(e)[:150]))
+        got = np.asarray(got).reshape(-1).tolist()
+        exp = want if col == "a" else [-v for v in want]
+        if got != exp:
+            return rec.fail(case, "rows %r, column %r of a sparse 4.1 GiB table: got %r, expected %r" % (rows, col, got, exp))
+        rec.ok(case, outcome="huge:%s" % style, nontrivial=True)
+
+    hsel = [(0,), (2048,), (4199,), (0, 2048), (1, 2049), (0, 4096), (2047, 2048), (0, 1, 4199), (4095, 4096), (2048, 4199)]
+    hunits = [(style, rows, col) for style in ("read", "bracket", "scalar") for rows in hsel for col in ("a", "b")]
+    ctx.lattice("offsets-beyond-4GiB", hunits, one_huge, bounds=dict(row_bytes=1048576, rows=4200, selections=len(hsel)))
+
     # the long-row table: text only, three access styles, every row selection
     LONG_STYLES = ["R.read", "SF[]", "sfile.read"]
     lunits = [("long", 3, delim, style) for delim in ctx.pick([","], [",", " ", "\t"]) for style in LONG_STYLES]
